@@ -117,6 +117,8 @@ func casesEngines(c *caseCtx) {
 	// positions in which every legal move is a concession (nothing to gain, king immobile): the move
 	// filters must still select something
 	special := append(cramped(c, c.scale(40, 400)), epEvasions(c, 10)...)
+	special = append(special, queenStars(c, c.scale(60, 600))...)
+	special = append(special, pinLines(c, c.scale(20, 200))...)
 	total := len(curatedFENs) + len(special) + c.scale(120, 3000)
 	for g := 0; g < total; g++ {
 		// every curated position as it stands (e.p. targets, castling rights), then short games from the
